@@ -120,6 +120,8 @@ var advStrings = []string{
 	"#hash", "a #b", "&anchor", "*alias", "!tag", "|", ">", "%pct", "@at", "`tick", "'single'", "\"double\"",
 	"", " ", "0", "1", "-1", "+1", "1.0", "0.5", "1e-3", "0b101", "123456789012345678901234567890", "<<", "=",
 	"plain", "value-1", "x.y", "a/b", "a\\b",
+	// a `$` that starts no variable reference, followed by non-ASCII text (the var expander must copy it verbatim)
+	"$€uro", "cost $5 ✓", "$ünï", "100$", "$",
 }
 
 func advString(r *Rng) string {
@@ -212,6 +214,10 @@ func genResource(r *Rng, ki kindInfo, name string, tracer string) obj {
 	}
 	if !ki.Cluster && r.Chance(20) {
 		meta["namespace"] = r.Pick([]string{"preset", "other"})
+	}
+	if r.Chance(30) {
+		// an untargeted annotation with adversarial text (metadata/annotations is a varReference path of every kind)
+		meta["annotations"].(obj)["note"] = advStringNoNL(r)
 	}
 	o := obj{"apiVersion": ki.APIVersion, "kind": ki.Kind, "metadata": meta}
 	lbl := obj{"app": name}
@@ -545,6 +551,17 @@ func genTree(r *Rng, o treeOpts) *GenTree {
 			}
 		}
 		t.Layers = append(t.Layers, l)
+	}
+	if hasDir(o, "vars") && len(t.Resources) > 0 {
+		// one well-defined variable in the top layer (never referenced): with `vars:` present the variable expander
+		// runs over every varReference path; text that is no reference must pass through unchanged
+		gr := t.Resources[r.Intn(len(t.Resources))]
+		top := t.Layers[len(t.Layers)-1]
+		top.Kust["vars"] = []interface{}{obj{
+			"name":     "VERIF_VAR",
+			"objref":   obj{"apiVersion": gr.Obj["apiVersion"], "kind": gr.Obj["kind"], "name": gr.Obj["metadata"].(obj)["name"]},
+			"fieldref": obj{"fieldpath": "metadata.name"},
+		}}
 	}
 	return t
 }
